@@ -33,7 +33,9 @@ def determinism(check, props=None, runs=240, nprocs=3):
                     if rc != 0:
                         print("determinism: worker failed rc=%s: %s" % (rc, open(out + ".log").read()[-1500:]))
                         return 2
-                    results.append(json.load(open(out + ".json"))["hashes"])
+                    wj = json.load(open(out + ".json"))
+                    # on the unchanged tree runs are independent: outcome AND schedule hashes must agree
+                    results.append({k: v + ":" + (wj.get("shashes") or {}).get(k, "") for k, v in wj["hashes"].items()})
                 ref = results[0]
                 same = all(r == ref for r in results[1:])
                 print("determinism %s %s: %d runs x %d processes (GOMAXPROCS 1/4/16%s): %s" % (
